@@ -50,6 +50,11 @@ Definition cmp {A} (kind : string) (obs : rclass) (out_ok : A -> bool) (m : res 
   | Ok a => tag_if (rclass_eqb obs CkOk && negb (out_ok a)) ("mismatch:value-" +++ kind)
   | _ => []
   end.
+Fixpoint tarfs_entries (ins : list string) (kinds : list Z) : list (string * tent) :=
+  match ins, kinds with
+  | n :: l :: ins', k :: kinds' => (n, mkTent k l) :: tarfs_entries ins' kinds'
+  | _, _ => []
+  end.
 Definition check_site (c : site_case) : list string :=
   let k := s_kind c in
   (if k =? "repoAbbr" then [] else class_tags k (s_obs c)) ++
@@ -105,6 +110,10 @@ Definition check_site (c : site_case) : list string :=
     | [p] => cmp k (s_obs c) (fun b => list_eqb String.eqb (s_out c) [bool_str b]) (etag_skel (negb (p =? 0)%Z) (s_ins c))
     | _ => ["mismatch:malformed-case"]
     end
+  else if k =? "tarfsOpen" then
+    (* s_ins = name1; link1; name2; link2; …, s_nums = the kinds (1 hard link, 2 symbolic link); s_in = the name that is
+       opened; s_out = the full name of the entry that was opened *)
+    cmp k (s_obs c) (fun n => list_eqb String.eqb (s_out c) [n]) (tarfs_open_name (tarfs_entries (s_ins c) (s_nums c)) (s_in c))
   else if k =? "fields" then
     (* strings.Fields itself, on arbitrary bytes: the model of the library function the splitter relies on *)
     tag_if (negb (list_eqb String.eqb (go_fields (s_in c)) (s_out c))) "mismatch:value-fields"
